@@ -101,7 +101,8 @@ def run(ctx):
     sc = C.scratch()
     fails = []
     # (a) synthetic alignments through the writers
-    alns = [alngen.rand_alignment(rng, not ctx.quick) for _ in range(50 if ctx.quick else 500)] + [alngen.long_row_alignment(rng) for _ in range(6 if ctx.quick else 60)]
+    alns = [alngen.rand_alignment(rng, not ctx.quick) for _ in range(50 if ctx.quick else 500)] + [alngen.long_row_alignment(rng) for _ in range(6 if ctx.quick else 60)] + \
+           [alngen.many_lines_alignment(rng, ctx.seed + j) for j in range(4 if ctx.quick else 24)]
     # names must be white-space free tokens for block formats; alngen guarantees the C06 charset
     lines, meta = [], []
     for k, (kind, aln) in enumerate(alns):
@@ -118,6 +119,7 @@ def run(ctx):
             lines.append("writealn %s %s %d %s" % (path, f, 1 if kind == "dna" else 0, alngen.aln_args(aln)))
             meta.append((k, f, path))
     chunks = [list(range(i, min(i + 30, len(lines)))) for i in range(0, len(lines), 30)]
+    chunks = [[i for i in ch if len(lines[i]) < 100000] for ch in chunks] + [[i] for i in range(len(lines)) if len(lines[i]) >= 100000]
     from concurrent.futures import ThreadPoolExecutor
     with ThreadPoolExecutor(C.NCPU) as ex:
         res = list(ex.map(lambda idx: C.run_lines(kvh, [lines[i] for i in idx], env=C.SAN_ENV), chunks))
